@@ -1600,7 +1600,7 @@ func (e *Engine) deleteSeriesRange(seriesKeys [][]byte, min, max int64) error {
 		return nil
 	})
 
-	if !overlapsTimeRangeMinMax && e.Cache.store.count() > 0 {
+	if !overlapsTimeRangeMinMax && e.Cache.entryCount() > 0 {
 		overlapsTimeRangeMinMax = true
 	}
 
